@@ -110,7 +110,22 @@ thread_local! {
 }
 /// Report::fail keeps the first 2000 failures only; known findings must not crowd out a new one, so at most 25
 /// failures of a class are recorded in full (all are counted)
+thread_local! {
+    /// probe mode of the minimiser: failures are collected here instead of being reported
+    static PROBE: std::cell::RefCell<Option<Vec<(String, String)>>> = std::cell::RefCell::new(None);
+}
 fn fail_limited(rep: &mut Report, class: &str, what: String, input: Value) {
+    let probing = PROBE.with(|p| {
+        if let Some(v) = p.borrow_mut().as_mut() {
+            v.push((class.to_string(), what.clone()));
+            true
+        } else {
+            false
+        }
+    });
+    if probing {
+        return;
+    }
     let n = FAIL_COUNTS.with(|c| {
         let mut c = c.borrow_mut();
         let e = c.entry(class.to_string()).or_insert(0);
@@ -731,22 +746,24 @@ fn corr_markdown(rep: &mut Report, text: &str, ilt: bool) {
     let mut codes: Vec<(u32, usize, usize, usize)> = vec![];
     let mut table = String::new();
     let mut seen: Vec<Vec<char>> = vec![];
-    let mut last = 0usize;
-    let mut monotone = true;
     let mut on_b = true;
     let mut text_range_ok = true;
     let mut n_text = 0u64;
     let mut n_clamped = 0u64;
+    // the wikilink passes of Markdown::parse only act on Pipe / `[[` tokens: when PlainEnglish makes no Pipe and no
+    // OpenSquare token out of any Text chunk they are the identity, and the loop alone is the whole parse
+    let mut wikilink_free = true;
+    if std::env::var("C04_MD_DEBUG").is_ok() {
+        eprintln!("{:?}", evs);
+    }
+    // the furthest range start so far: Markdown::parse handles an event there (C04_md_offsets_running_max), also a
+    // replayed one that the guard lets through (FC02c)
+    let mut run_max = 0usize;
     for (ev, range) in &evs {
-        // End events carry the range of the whole element; every other event must start at or after all
-        // previous range starts, or it is handled at a later char offset than its own
-        if range.start < last && !matches!(ev, Event::End(_)) {
-            monotone = false;
-        }
-        last = last.max(range.start);
         if !text.is_char_boundary(range.start) {
             on_b = false;
         }
+        run_max = run_max.max(range.start);
         let n = |s: &str| s.chars().count();
         let code = match ev {
             Event::Start(Tag::List(_)) => (0, 9, range.start),
@@ -777,7 +794,7 @@ fn corr_markdown(rep: &mut Report, text: &str, ilt: bool) {
                 if !(range.start <= range.end && text.is_char_boundary(range.start) && text.is_char_boundary(range.end)) {
                     text_range_ok = false;
                 } else {
-                    let tc = text[..range.start].chars().count();
+                    let tc = if text.is_char_boundary(run_max) { text[..run_max].chars().count() } else { text[..range.start].chars().count() };
                     // chunk_len of Markdown::parse: never more chars than the source range holds
                     let len = n(t).min(text[range.clone()].chars().count());
                     if len < n(t) {
@@ -792,6 +809,9 @@ fn corr_markdown(rep: &mut Report, text: &str, ilt: bool) {
                             table.push_str(" ;");
                             for k in &toks {
                                 table.push_str(&format!(" {} {} {}", k.span.start, k.span.end, kind_code(&k.kind)));
+                                if matches!(k.kind, TokenKind::Punctuation(harper_core::Punctuation::Pipe | harper_core::Punctuation::OpenSquare)) {
+                                    wikilink_free = false;
+                                }
                             }
                             seen.push(chunk);
                         }
@@ -815,10 +835,6 @@ fn corr_markdown(rep: &mut Report, text: &str, ilt: bool) {
         rep.monitor("md_event_off_char_boundary", 1);
         fail_limited(rep, "contract_md_boundary", "a pulldown-cmark event range starts inside a multi-byte character".into(), json!({"kind":"md","text":text,"ilt":ilt}));
     }
-    if !monotone {
-        rep.monitor("md_event_before_cursor", 1);
-        fail_limited(rep, "contract_md_order", "a non-End pulldown-cmark event starts before an earlier event's range start: Markdown::parse places it at the later offset".into(), json!({"kind":"md","text":text,"ilt":ilt}));
-    }
     let starts: Vec<String> = codes.iter().map(|c| c.2.to_string()).collect();
     // Y: the cursor alone (reference: chars before max(start so far))
     let mut tb = 0usize;
@@ -835,8 +851,101 @@ fn corr_markdown(rep: &mut Report, text: &str, ilt: bool) {
         refs.push_str(&format!(" {} {}", tb, text[..tb].chars().count()));
     }
     rep.case(&format!("Y {} | {}", cps_str(text), starts.join(" ")), if ok { refs.trim() } else { "P" });
+    // shadow run of the loop's bookkeeping (cursor, covered_until, tag stack; PlainEnglish on the chunks) for the
+    // contract monitor: since 8b26ba4 an event that repeats source text is skipped by the guard; what is still
+    // assumed is that a non-End event which is NOT skipped never starts before the furthest range start seen so far
+    // (C04_md_offsets_running_max: it would be handled at that later offset)
+    let mut monotone = true;
+    {
+        let (mut tbb, mut cu, mut guard_hits, mut empty_code) = (0usize, 0usize, 0u64, 0u64);
+        let mut lastend: Option<usize> = None;
+        let mut stack: Vec<usize> = vec![];
+        let mut okb = true;
+        for c in &codes {
+            let behind = c.2 < tbb;
+            tbb = tbb.max(c.2);
+            if !text.is_char_boundary(tbb) {
+                okb = false;
+                break;
+            }
+            let tc = text[..tbb].chars().count();
+            if let Some(e) = lastend {
+                cu = cu.max(e);
+            }
+            let leaf = matches!(c.0, 3 | 4 | 5 | 6 | 7);
+            if leaf && tc < cu {
+                guard_hits += 1;
+                continue;
+            }
+            // only an event that pushes a token can be mislocated: an unskipped leaf event or Start(List); End events
+            // carry the range of the whole element and put their zero-width break at the cursor by design
+            if behind && (leaf || (c.0 == 0 && c.1 == 9)) {
+                monotone = false;
+            }
+            match c.0 {
+                0 => {
+                    if c.1 == 9 {
+                        lastend = Some(tc);
+                    }
+                    stack.push(c.1);
+                }
+                1 => {
+                    lastend = Some(tc);
+                    stack.pop();
+                }
+                2 => {
+                    stack.pop();
+                }
+                3 | 4 => lastend = Some(tc + 1),
+                5 => {
+                    if c.1 == 0 {
+                        empty_code += 1;
+                    } else {
+                        lastend = Some(tc + c.1);
+                    }
+                }
+                7 => lastend = Some(tc + c.1),
+                6 => {
+                    if c.2 <= c.3 && text.is_char_boundary(c.2) && text.is_char_boundary(c.3) {
+                        let len = c.1.min(text[c.2..c.3].chars().count());
+                        if len > 0 && tc + len <= chars.len() {
+                            let top = stack.last().copied();
+                            let unl = top == Some(8) || (top == Some(1) && ilt);
+                            let prose = match top {
+                                None => true,
+                                Some(t) => matches!(t, 0 | 2 | 3 | 4 | 5 | 6 | 7) || (t == 1 && !ilt),
+                            };
+                            if unl {
+                                lastend = Some(tc + len);
+                            } else if prose {
+                                if let Some(k) = PlainEnglish.parse(&chars[tc..tc + len]).last() {
+                                    lastend = Some(tc + k.span.end);
+                                }
+                            }
+                        }
+                    }
+                }
+                _ => {}
+            }
+        }
+        if okb {
+            rep.monitor("md_guard_skipped_events", guard_hits);
+            rep.monitor("md_empty_code_events", empty_code);
+            if guard_hits > 0 {
+                rep.count("md_guard:stream_with_skipped_event");
+            }
+            if empty_code > 0 {
+                rep.count("md_guard:stream_with_empty_code");
+            }
+        }
+    }
+    if !monotone {
+        rep.monitor("md_event_before_cursor", 1);
+        fail_limited(rep, "contract_md_order", "a non-End pulldown-cmark event that the covered_until guard does not skip starts before an earlier event's range start: Markdown::parse places it at the later offset".into(), json!({"kind":"md","text":text,"ilt":ilt}));
+    }
     // Z: the whole loop against Markdown::parse, when the wikilink passes cannot apply
-    if !text.contains('|') && !text.contains("[[") && !text.contains("]]") {
+    if wikilink_free {
+        rep.count(if text.contains('|') || text.contains("[[") { "md_loop:wikilink_material_but_passes_identity" } else { "md_loop:no_wikilink_material" });
         let mut mo = MarkdownOptions::default();
         mo.ignore_link_title = ilt;
         let imp = guarded(|| Markdown::new(mo).parse(&chars));
@@ -852,6 +961,17 @@ fn corr_markdown(rep: &mut Report, text: &str, ilt: bool) {
             // C04_md_offsets_running_max give it for the model; F27 was the counter-example)
             if let Some(k) = t.iter().find(|k| k.span.start > k.span.end || k.span.end > chars.len()) {
                 fail_limited(rep, "token_out_of_bounds", format!("markdown/parser: token {:?} (kind {}) outside the file of {} chars", k.span, kind_code(&k.kind), chars.len()), json!({"kind":"md","text":text,"ilt":ilt}));
+            }
+        }
+        if let Ok(t) = &imp {
+            // "the words Harper sees are exactly the prose words": a word of the file is seen ONCE (C04_md_guard_covered:
+            // an event that repeats source text makes no second token over it; FC02b was the counter-example)
+            let mut spans: Vec<(usize, usize)> = t.iter().filter(|k| matches!(k.kind, TokenKind::Word(_))).map(|k| (k.span.start, k.span.end)).collect();
+            let n0 = spans.len();
+            spans.sort();
+            spans.dedup();
+            if spans.len() != n0 {
+                fail_limited(rep, "word_seen_twice:markdown", format!("markdown/parser: {} Word token(s) repeat the span of an earlier Word token", n0 - spans.len()), json!({"kind":"md","text":text,"ilt":ilt}));
             }
         }
         if let Err(m) = &imp {
@@ -930,11 +1050,153 @@ fn wrappers_oracle(rep: &mut Report, fe_base: &str, chars: &[char], dict: &Arc<F
     }
 }
 
+/// `b` without the chars [ls, le): ground truth shifted, non-prose ranges clipped
+fn delete_range(b: &Built, ls: usize, le: usize) -> Built {
+    let d = le - ls;
+    let text: String = b.text.chars().enumerate().filter(|(i, _)| *i < ls || *i >= le).map(|(_, c)| c).collect();
+    let mv = |x: usize| if x <= ls { x } else if x >= le { x - d } else { ls };
+    let words = b.words.iter().filter(|(o, w)| *o + w.chars().count() <= ls || *o >= le).map(|(o, w)| (mv(*o), w.clone())).collect();
+    let forbidden = b.forbidden.iter().map(|(s, e, l)| (mv(*s), mv(*e), l.clone())).filter(|(s, e, _)| s < e).collect();
+    Built { fe: b.fe.clone(), text, words, forbidden }
+}
+
+/// the failures (class, what) of the search oracle on `b`, nothing reported
+fn probe(scratch: &mut Report, b: &Built, dict: &Arc<FstDictionary>) -> Vec<(String, String)> {
+    PROBE.with(|p| *p.borrow_mut() = Some(vec![]));
+    oracle_inner(scratch, b, dict);
+    PROBE.with(|p| p.borrow_mut().take()).unwrap_or_default()
+}
+
+/// Minimiser for generated failing files: deletes whole units of lines (last to first, repeated until nothing more goes, at most
+/// `budget` oracle runs) as long as the oracle still fails with the SAME class; the ground truth (prose words, non-prose
+/// ranges) is carried along, so the result is replayable through `--replay` / the corpus like any constructed file.
+fn strip_numbers(s: &str) -> String {
+    s.chars().filter(|c| !c.is_ascii_digit()).collect()
+}
+fn shrink(scratch: &mut Report, b: &Built, class: &str, orig_what: &str, dict: &Arc<FstDictionary>, mut budget: usize) -> Option<(Built, String)> {
+    // "the same failure" = the same class and the same message up to the numbers in it (offsets move)
+    let want = strip_numbers(orig_what);
+    let mut cur = delete_range(b, 0, 0);
+    let mut what: Option<String> = None;
+    loop {
+        let mut progressed = false;
+        let cs: Vec<char> = cur.text.chars().collect();
+        // lines
+        let mut lines = vec![0usize];
+        for (i, c) in cs.iter().enumerate() {
+            if *c == '\n' {
+                lines.push(i + 1);
+            }
+        }
+        if *lines.last().unwrap() != cs.len() {
+            lines.push(cs.len());
+        }
+        // Deleting an arbitrary line can turn the rest into something else (a block comment without its opener, two
+        // comment blocks merged under one ignore marker) and make the ground truth wrong, so only whole UNITS go:
+        // comment languages — a run of non-code lines with the code lines that follow it (the code lines that separate
+        // the remaining blocks stay); other front-ends — a run of lines with the blank lines that follow it.  The units
+        // holding a language's header / footer line stay.
+        let is_c = cur.fe.starts_with("c:");
+        let nl = lines.len() - 1;
+        let sep: Vec<bool> = (0..nl)
+            .map(|i| {
+                let (ls, le) = (lines[i], lines[i + 1]);
+                if is_c {
+                    cur.forbidden.iter().any(|(s, e, l)| *s < le && ls < *e && matches!(l.as_str(), "code" | "go_directive" | "docstring"))
+                } else {
+                    cs[ls..le].iter().all(|c| c.is_whitespace())
+                }
+            })
+            .collect();
+        let mut bounds = vec![0usize];
+        for i in 1..nl {
+            if !sep[i] && sep[i - 1] {
+                bounds.push(lines[i]);
+            }
+        }
+        bounds.push(cs.len());
+        let (hdr, ftr) = if is_c {
+            let (_, _, _, h, f) = c04_gen::line_leaders(cur.fe.trim_start_matches("c:"));
+            (!h.is_empty(), !f.is_empty())
+        } else {
+            (false, false)
+        };
+        let last_unit = bounds.len() - 2;
+        let mut k = bounds.len() - 1;
+        while k > 0 && budget > 0 {
+            k -= 1;
+            let (ls, le) = (bounds[k], bounds[k + 1]);
+            if le - ls >= cs.len() || (hdr && k == 0) || (ftr && k == last_unit) {
+                continue;
+            }
+            let cand = delete_range(&cur, ls, le);
+            budget -= 1;
+            if let Some((_, w)) = probe(scratch, &cand, dict).into_iter().find(|(c, w)| c == class && strip_numbers(w) == want) {
+                // bounds above k are stale now, bounds up to k are untouched: keep going downwards
+                cur = cand;
+                what = Some(w);
+                progressed = true;
+            }
+        }
+        if !progressed || budget == 0 {
+            break;
+        }
+    }
+    what.map(|w| (cur, w))
+}
+
+thread_local! {
+    static SCRATCH: std::cell::RefCell<Option<Report>> = std::cell::RefCell::new(None);
+    static SHRUNK: std::cell::RefCell<std::collections::HashMap<String, u64>> = std::cell::RefCell::new(Default::default());
+}
+
+/// the search oracle; the first failures of every class are minimised before they are recorded
 fn oracle(rep: &mut Report, b: &Built, dict: &Arc<FstDictionary>) {
+    let before = rep.failures.len();
+    oracle_inner(rep, b, dict);
+    for idx in before..rep.failures.len() {
+        let class = rep.failures[idx].class.clone();
+        let orig_what = rep.failures[idx].what.clone();
+        let n = SHRUNK.with(|m| {
+            let mut m = m.borrow_mut();
+            let e = m.entry(class.clone()).or_insert(0);
+            *e += 1;
+            *e
+        });
+        if n > 3 {
+            continue;
+        }
+        let dir = format!("{}/shrink-scratch", rep.dir);
+        let small = SCRATCH.with(|sc| {
+            let mut sc = sc.borrow_mut();
+            if sc.is_none() {
+                let _ = std::fs::create_dir_all(&dir);
+                *sc = Some(Report::new(&dir));
+            }
+            shrink(sc.as_mut().unwrap(), b, &class, &orig_what, dict, 80)
+        });
+        if let Some((sb, what)) = small {
+            rep.monitor("failing_files_minimised", 1);
+            rep.count_n("minimiser:chars_removed", (b.text.chars().count() - sb.text.chars().count()) as u64);
+            rep.failures[idx].what = format!("{what} [minimised from {} to {} chars]", b.text.chars().count(), sb.text.chars().count());
+            rep.failures[idx].input = doc_json(&sb);
+        }
+    }
+}
+
+fn oracle_inner(rep: &mut Report, b: &Built, dict: &Arc<FstDictionary>) {
     rep.eval();
     let chars: Vec<char> = b.text.chars().collect();
     let fe_base = b.fe.clone();
     rep.count(&format!("fe:{}", fe_base));
+    {
+        let mut labels: Vec<&str> = b.forbidden.iter().map(|(_, _, l)| l.as_str()).collect();
+        labels.sort();
+        labels.dedup();
+        for l in labels {
+            rep.count(&format!("seg:{l}"));
+        }
+    }
     let inp = doc_json(b);
     if fe_base.starts_with("c:") || fe_base == "lhaskell" || fe_base == "html" {
         wrappers_oracle(rep, &fe_base, &chars, dict, &inp);
@@ -1677,7 +1939,13 @@ pub fn run(a: &Args, corpus: &[Value]) {
         let t = match i % 4 {
             0 => build_file("markdown", &mut r).text,
             1 => frontends::embed("markdown", &mut r),
-            2 => small_text(&mut r) + &small_text(&mut r),
+            2 if i % 8 == 2 => small_text(&mut r) + &small_text(&mut r),
+            2 => {
+                // wikilinks with an empty / present pothole (events that repeat source text: the covered_until guard),
+                // empty math and code bodies (a37d1cc), with multi-byte text before them
+                let parts = ["[[a|]]", "[[é|]]", "[[river|]] ", "[[値段|]]x", "[[a|b]]", "[[stone]]", "$$$$", "$$ $$", "$$x$$", "$é$", "$$", "``", "` `", "é ", "river ", "値 ", "\n", "\n\n", "# ", "- ", "> ", "*", "[[", "]]", "|", "[[a|", "[[|]]", "[[a|]] [[b|]]", "😀", "<b>", "\t"];
+                (0..r.range(1, 8)).map(|_| r.s(&parts)).collect::<String>()
+            }
             _ => {
                 let parts = ["é ", "値段", "😀", "`", "``", "$", "\n", "\n\n", "# ", "- ", "> ", "*", "**", "[", "](", ")", "<", ">", "&amp;", "\\*", "    ", "\t", "1. ", "~~", "<b>", "</b>", "river ", "stone", "\r\n", "---", "```", "https://a.b/c ", "![", "|", "> \t\t", "- \t\t", ">\t\t", "1.\t\t", "\t\t"];
                 (0..r.range(1, 12)).map(|_| r.s(&parts)).collect::<String>()
